@@ -136,10 +136,13 @@ type visitor struct {
 	// full ("+full", implies cond): assignments, increments, loop headers, switch tags and case
 	// lists are part of the shape too — for decision logic whose data flow the property rests on
 	full bool
+	// args ("+args", implies full): a call that is a statement of its own is also recorded with its
+	// arguments ("args:f(a,b)"), and string literals are kept (the constants that are the decision)
+	args bool
 }
 
-// rich is set while a "+full" target is walked
-var rich bool
+// rich is set while a "+full" target is walked, keepLits while a "+args" target is walked
+var rich, keepLits bool
 
 // cond renders a condition with its operators (decision logic)
 func cond(e ast.Expr) string {
@@ -157,7 +160,7 @@ func cond(e ast.Expr) string {
 		}
 		return render(x.Fun) + "(" + strings.Join(as, ",") + ")"
 	case *ast.BasicLit:
-		if x.Kind == token.STRING {
+		if x.Kind == token.STRING && !keepLits {
 			return "\"\"" // message texts do not matter
 		}
 		return x.Value
@@ -232,6 +235,16 @@ func (v visitor) Visit(n ast.Node) ast.Visitor {
 			*v.out = append(*v.out, "defer:"+nm)
 		}
 		return nil
+	case *ast.ExprStmt:
+		if v.args {
+			if c, ok := x.X.(*ast.CallExpr); ok {
+				if full := strings.Split(render(c.Fun), "."); !(len(full) >= 2 && skipPkg[full[0]]) {
+					ast.Walk(v, c)
+					*v.out = append(*v.out, "args:"+cond(c))
+					return nil
+				}
+			}
+		}
 	case *ast.AssignStmt:
 		if v.full {
 			for _, r := range x.Rhs {
@@ -428,7 +441,9 @@ func main() {
 			}
 			withLit := strings.HasSuffix(want, "+lit")
 			want = strings.TrimSuffix(want, "+lit")
-			withFull := strings.HasSuffix(want, "+full")
+			withArgs := strings.HasSuffix(want, "+args")
+			want = strings.TrimSuffix(want, "+args")
+			withFull := strings.HasSuffix(want, "+full") || withArgs
 			want = strings.TrimSuffix(want, "+full")
 			withCond := strings.HasSuffix(want, "+cond") || withFull
 			want = strings.TrimSuffix(want, "+cond")
@@ -439,9 +454,9 @@ func main() {
 				missing = append(missing, f+":"+want)
 				seq = []string{"<function not found>"}
 			} else {
-				rich = withFull
-				ast.Walk(visitor{&seq, withCond, withLit, withFull}, body)
-				rich = false
+				rich, keepLits = withFull, withArgs
+				ast.Walk(visitor{&seq, withCond, withLit, withFull, withArgs}, body)
+				rich, keepLits = false, false
 			}
 			id := strings.NewReplacer(".", "_", "/", "_").Replace(strings.TrimSuffix(f, ".go") + "_" + want)
 			if alias != "" {
